@@ -327,7 +327,8 @@ def run(tier, only=None):
     t0 = time.time()
     # ---- part A: size == bytes written, through the C01 machinery (restricted reporting)
     ncov = {'messages': 0, 'shapes': 0}
-    if not only or only == 'A':
+    name_filter = only if only and only not in ('A', 'BC') else None
+    if not only or only == 'A' or name_filter:
         import multiprocessing as mp
         from ..common import NCPU
         from .. import encode
@@ -335,7 +336,9 @@ def run(tier, only=None):
         for kind in ('login', 'world'):
             prog, inv, res, dropped = messages.build(kind, corpus)
             targets = messages.world_targets(corpus) if kind == 'world' else messages.login_targets(corpus)
-            idxs = list(range(len(targets)))
+            idxs = [i for i in range(len(targets)) if not name_filter or name_filter in targets[i][2]]
+            if not idxs:
+                continue
             nproc = min(NCPU, len(idxs))
             chunks = [c for c in (idxs[j::nproc * 4] for j in range(nproc * 4)) if c]
             with mp.Pool(nproc) as pool:
